@@ -136,3 +136,10 @@ package cache
 //@   float real
 //@   requires c.rds != nil
 //@   call SetWithExpireCtx#0: assert arg_key == key && arg_val == v && arg_expire == expire
+
+// whatever the options set (including zero or negative values), both configured expiries end up positive
+//@ func newOptions
+//@   property C06
+//@   flag callbacks_noheap
+//@   loop 0: modifies o
+//@   ensures result.Expiry > 0 && result.NotFoundExpiry > 0
